@@ -3,6 +3,7 @@
 package harness
 
 import (
+	"go.uber.org/zap"
 	"reflect"
 	"unsafe"
 	"context"
@@ -53,6 +54,7 @@ type memKV struct {
 	rng      *rand.Rand
 	fail     atomic.Int32 // per-mille probability of a transient error
 	slowWatch bool        // profile B: every other Watch call is slow, so that stop calls with short time-outs leave a watch loop behind
+	onUpdate func(prev, next []byte) // called (under the store's mutex) for every Update that is applied
 }
 
 func newMemKV(seed int64) *memKV {
@@ -116,6 +118,9 @@ func (k *memKV) Update(key string, value []byte, rev uint64, opts ...interface{}
 	cur, ok := k.recs[key]
 	if !ok || cur.rev != rev {
 		return 0, &nats.APIError{ErrorCode: 10071, Description: "wrong last sequence"}
+	}
+	if k.onUpdate != nil {
+		k.onUpdate(cur.val, value)
 	}
 	k.seq++
 	e := &memEntry{key, append([]byte(nil), value...), k.seq}
@@ -183,6 +188,15 @@ type memProvider struct {
 
 func (p *memProvider) JetStream() (leader.JetStreamContext, error) { return memJS{p.kv}, nil }
 func (p *memProvider) NATSConnection() *nats.Conn                 { return p.conn }
+
+// discardLogger is a stateless Logger.
+type discardLogger struct{}
+
+func (discardLogger) Debug(string, ...zap.Field) {}
+func (discardLogger) Info(string, ...zap.Field)  {}
+func (discardLogger) Warn(string, ...zap.Field)  {}
+func (discardLogger) Error(string, ...zap.Field) {}
+func (discardLogger) Fatal(string, ...zap.Field) {}
 
 // disconnectCB returns the handler registered with SetDisconnectHandler (nats.go has no getter for it), reading it under
 // the connection's own mutex as the client does.
@@ -290,6 +304,9 @@ func runRace(rep *Report, rng *rand.Rand, n int, thorough bool) error {
 			}
 			cfg := leader.ElectionConfig{Bucket: "b", Group: "g", InstanceID: fmt.Sprintf("i%d", i), TTL: 3 * h, HeartbeatInterval: h,
 				ValidationInterval: 2 * h, DisconnectGracePeriod: 2 * h, Priority: i % 2, AllowPriorityTakeover: i == 3}
+			if i != 2 {
+				cfg.Logger = discardLogger{} // (a configured logger: whatever the library prepares for it is shared by its goroutines)
+			}
 			if i == 2 {
 				cfg.HealthChecker = raceHealth{}
 			}
@@ -387,7 +404,7 @@ func runRace(rep *Report, rng *rand.Rand, n int, thorough bool) error {
 				_ = el.Token()
 				_ = el.Status()
 				if r.Intn(4) == 0 {
-					ctx, cancel := context.WithTimeout(context.Background(), 5*time.Millisecond)
+					ctx, cancel := context.WithTimeout(context.WithValue(context.Background(), "correlation_id", "race"), 5*time.Millisecond)
 					_, _ = el.ValidateToken(ctx)
 					cancel()
 				}
